@@ -44,6 +44,7 @@ FaultSets(n) == {<<>>} \cup { <<[op |-> "write", k |-> 1, class |-> "fatal", run
                 \cup (IF n >= 3 THEN { <<[op |-> "write", k |-> 2, class |-> "fatal", run |-> 1], [op |-> "newsource", k |-> 1, class |-> "fatal", run |-> 3]>>,
                                        <<[op |-> "setfilter", k |-> 1, class |-> "fatal", run |-> 2], [op |-> "read", k |-> 1, class |-> "zero", run |-> n]>> }
                       ELSE {})
+Orders1 == <<0, 0, 0, 0, 0, 0, 0, 0>>
 Orders == { <<0, 0, 0, 0, 0, 0, 0, 0>>, <<40000, 0, 20000, 0, 0, 30000, 0, 0>>, <<0, 70000, 0, 10000, 50000, 0, 0, 20000>> }
 C15Scen(pr, q, e, fs, ord, pub) ==
     [id |-> "C15/" \o pr[1] \o pr[2] \o (IF pr[3] THEN "6" ELSE "4") \o "/" \o ToString(q) \o "-" \o ToString(e) \o "/f" \o ToJson(fs) \o "/o" \o ToString(ord[1] + ord[2]) \o "/" \o pub,
@@ -56,7 +57,11 @@ C15Cancel(pr, e, c) ==
     [id |-> "C15/cancel/" \o pr[1] \o pr[2] \o (IF pr[3] THEN "6" ELSE "4") \o "/e" \o ToString(e) \o "/" \o ToString(c), label |-> pr[1] \o pr[2] \o "/cancel_during_e2e_pacing",
      kind |-> "run", per_flow |-> TRUE, sack_perm |-> TRUE, isn32 |-> <<4660, 1>>, cancel_us |-> c,
      run |-> Run(pr[1], pr[2], pr[3], 1, 4, 1, e), path |-> PathFor(pr[1], pr[3], 1, 4, 3, 0)]
-C15All(u) == { C15Cancel(pr, e, c) : pr \in {<<"udp", "", FALSE>>, <<"tcp", "syn", FALSE>>, <<"udp", "", TRUE>>}, e \in {2, 4}, c \in {100000, 450000} } \cup { C15Scen(pr, qe[1], qe[2], fs, ord, pub) :
+\* more failures than a log line is long: every single one is still exposed
+C15Many(pr) ==
+    [C15Scen(pr, 4, 8, <<>>, Orders1, "none") EXCEPT !.id = "C15/many/" \o pr[1] \o pr[2], !.label = pr[1] \o "/" \o pr[2] \o "/twelve_failures",
+        !.faults = [r \in 1..12 |-> [op |-> "write", k |-> 1, class |-> "fatal", run |-> r]]]
+C15All(u) == { C15Many(pr) : pr \in {<<"udp", "", FALSE>>, <<"icmp", "", FALSE>>} } \cup { C15Cancel(pr, e, c) : pr \in {<<"udp", "", FALSE>>, <<"tcp", "syn", FALSE>>, <<"udp", "", TRUE>>}, e \in {2, 4}, c \in {100000, 450000} } \cup { C15Scen(pr, qe[1], qe[2], fs, ord, pub) :
                  pr \in Protos, qe \in {<<1, 0>>, <<3, 0>>, <<0, 2>>, <<2, 3>>, <<3, 1>>}, fs \in FaultSets(4), ord \in Orders, pub \in {"none", "ok", "fail"} }
 
 ---------------------------------------------------------------------------
@@ -124,7 +129,12 @@ C20Scen(m, cap, f, e) ==
 C20Cancel(m, cap, c) ==
     [C20Scen(m, cap, "none", 0) EXCEPT !.id = @ \o "/cancel" \o ToString(c), !.label = @ \o "/cancelled", !.extra = @ @@ [cancel_at_start |-> (c = 0)]]
     @@ [cancel_us |-> c]
-C20All(u) == { C20Scen(m, cap, f, 0) : m \in TP!Methods, cap \in TP!Caps, f \in TP!Faults }
+\* the target's own time-exceeded (a destination reply for SACK) is read BEFORE its acknowledgement without SACK blocks: still unavailable
+C20TeFirst(m) ==
+    [C20Scen(m, "ack_nosack", "none", 0) EXCEPT !.id = @ \o "/te_from_target_first", !.label = @ \o "/te_from_target_first",
+        !.path = PathOf([t \in 1..4 |-> <<[form |-> "te", from |-> "TARGET", delay_us |-> 500],
+                                             [form |-> "ack_nosack", delay_us |-> 9000], [form |-> "synack", delay_us |-> 9000]>>])]
+C20All(u) == { C20TeFirst(m) : m \in TP!Methods } \cup { C20Scen(m, cap, f, 0) : m \in TP!Methods, cap \in TP!Caps, f \in TP!Faults }
              \cup { C20Cancel(m, cap, c) : m \in TP!Methods, cap \in TP!Caps, c \in {0, 1, 2500} }
              \cup { C20Scen(m, cap, "none", 2) : m \in TP!Methods, cap \in TP!Caps }
 
@@ -166,6 +176,8 @@ C11Ports(v6, q, ord) ==
 C11All(u) ==
     { C11Req(pr, b, ord, 3, e) : pr \in Protos, b \in WrapBases, ord \in Orders, e \in {0, 2} }
     \cup { C11Ports(v6, q, ord) : v6 \in BOOLEAN, q \in {3, 5}, ord \in Orders }
+    \cup { [C11Ports(FALSE, q, Orders1) EXCEPT !.id = "C11/ports/icmp4/" \o ToString(q), !.label = "request/icmp/few_ephemeral_ports/" \o ToString(q),
+                                                !.run.protocol = "icmp", !.path = PathFor("icmp", FALSE, 1, 5, 4, 0)] : q \in {3, 5} }
     \cup { C11Mix(ms, b, ord, q) : ms \in MixSets, b \in WrapBases, ord \in Orders, q \in {1, 2} }
     \cup { [id |-> "C11/alloc/stress/" \o ToString(pb), label |-> "alloc/stress/" \o ToString(pb), kind |-> "alloc",
             extra |-> [pid_base |-> pb, echo_base |-> 0, callers |-> <<[m |-> 1, n |-> 1]>>, stress |-> [g |-> 16, n |-> 120, m |-> 30, rounds |-> IF Tier = "quick" THEN 150 ELSE 1500]]]
@@ -187,7 +199,7 @@ C17Run(pr, via, skip, rdns, sil, sp) ==
     [id |-> "C17/run/" \o pr[1] \o pr[2] \o "/" \o via \o "/" \o (IF skip THEN "skip" ELSE "keep") \o (IF rdns THEN "/rdns" ELSE "") \o "/sil" \o ToString(sil) \o "/sp" \o ToString(sp),
      label |-> "wire/" \o pr[1] \o pr[2] \o "/" \o via \o (IF skip THEN "" ELSE "/keep") \o (IF rdns THEN "/rdns" ELSE "") \o "/sil" \o ToString(sil) \o "/sp" \o ToString(sp),
      kind |-> "run", sack_perm |-> TRUE, isn32 |-> <<4660, 1>>,
-     extra |-> [expect17 |-> [skip |-> skip, rdns |-> rdns, routers |-> RoutersAt(sil), private |-> PrivAt(sil)]],
+     extra |-> [expect17 |-> [skip |-> skip, rdns |-> rdns, routers |-> RoutersAt(sil), private |-> PrivAt(sil), private_target |-> FALSE]],
      run |-> [Run(pr[1], pr[2], FALSE, 1, 8, 2, 1) EXCEPT !.skip_private = skip, !.reverse_dns = rdns, !.via = via,
                 !.dns = [x \in {"*"} |-> "name-of-hop"],
                 !.query = "target=" \o T4 \o "&protocol=" \o pr[1] \o "&tcp-method=" \o pr[2] \o "&port=443&max-ttl=8&timeout=300&traceroute-queries=2&e2e-queries=1"
@@ -195,7 +207,15 @@ C17Run(pr, via, skip, rdns, sil, sp) ==
      path |-> PathOf([t \in 1..8 |->
                 IF t = 8 THEN (IF pr[1] = "tcp" THEN <<[form |-> "sack", delay_us |-> 9000], [form |-> "synack", delay_us |-> 9000]>> ELSE <<[form |-> DestFormOf(pr[1], ""), delay_us |-> 9000]>>)
                 ELSE IF t = sil THEN <<>> ELSE <<[form |-> "te", from |-> RoutersAt(sil)[t], delay_us |-> 1000 * t]>>])]
-C17All(u) == { C17Run(pr, via, sk, rd, sil, 1) : pr \in {<<"icmp", "", FALSE>>, <<"udp", "", FALSE>>, <<"tcp", "syn", FALSE>>, <<"tcp", "sack", FALSE>>},
+\* a PRIVATE target: the routers before it and the destination hop itself are redacted like any other private hop
+C17Priv(pr, via, skip) ==
+    LET base == C17Run(pr, via, skip, FALSE, 7, 1)  tgt == "10.20.30.40" IN
+    [base EXCEPT !.id = @ \o "/private_target", !.label = @ \o "/private_target",
+                 !.run.hostname = tgt,
+                 !.run.query = "target=" \o tgt \o "&protocol=" \o pr[1] \o "&tcp-method=" \o pr[2] \o "&port=443&max-ttl=8&timeout=300&traceroute-queries=2&e2e-queries=1"
+                               \o "&skip-private-hops=" \o (IF skip THEN "true" ELSE "false"),
+                 !.extra.expect17.private_target = TRUE]
+C17All(u) == { C17Priv(pr, via, sk) : pr \in {<<"icmp", "", FALSE>>, <<"udp", "", FALSE>>}, via \in {"lib", "http"}, sk \in BOOLEAN } \cup { C17Run(pr, via, sk, rd, sil, 1) : pr \in {<<"icmp", "", FALSE>>, <<"udp", "", FALSE>>, <<"tcp", "syn", FALSE>>, <<"tcp", "sack", FALSE>>},
                  via \in {"lib", "http"}, sk \in BOOLEAN, rd \in BOOLEAN, sil \in {2, 7} }
              \cup { C17Run(<<"icmp", "", FALSE>>, "http", sk, rd, 2, sp) : sk \in BOOLEAN, rd \in BOOLEAN, sp \in 2..6 }
 
